@@ -285,12 +285,13 @@ theorem args_plain (dims : List Nat) (ts : List Int) (od : List Nat) :
     · cases h4 : pyGetAll dims ts with
       | none => simp [h1, h2]
       | some td =>
+        have h9 := pyGetAll_ge dims ts td h4
         by_cases h5 : td = od
         · by_cases h6 : (restPos dims.length (nonneg ts)).length > dims.length - od.length
-          · simp [h1, h2, h5, h6]
+          · simp [h1, h2, h5, h6, h9]
           · by_cases h8 : (restPos dims.length (nonneg ts)).length + od.length = dims.length
-            · simp [h1, h2, h5, h6, h8]
-            · simp [h1, h2, h5, h6, h8]
+            · simp [h1, h2, h5, h6, h8, h9]
+            · simp [h1, h2, h5, h6, h8, h9]
         · simp [h1, h2, h5]
     · simp [h1, h2]
   · simp [h1]
@@ -333,7 +334,8 @@ theorem args_one_sound (N : Nat) (dims : List Nat) (ts : List Int) (opL opR reg 
 
 open QipVerif.EmbedArgs in
 example : expandOne 2 [2, 3, 2] [1] [3] [3] = .ok ([2, 3], [1])
-    ∧ expandOne 4 [2, 3, 2] [1] [3] [3] = .error (.val .index) := by decide
+    ∧ expandOne 4 [2, 3, 2] [1] [3] [3] = .error (.val .index)
+    ∧ expandOne 0 [2] [-1] [2] [2] = .error (.val .index) := by decide
 
 open QipVerif.EmbedArgs in
 /-- the non-cyclic call returns one operator, and it is a well-formed placement -/
